@@ -667,6 +667,7 @@ def do_step(m, c: dict, method, *, kwargs=None, draws: Optional[Draws] = None, s
         return ev, orig
     randomise(m, seed)
     ev["pre"] = project(m, c)
+    ev["bn"] = any(k.endswith("running_mean") for k, _ in m.named_buffers())        # BatchNorm layers present
     ev["adv"] = _adv(m)
     if not isinstance(method, str):
         method = method(ev["adv"])
@@ -872,6 +873,7 @@ CLAUSE_TAGS = [
     ("every surviving weight keeps", "weights-lost"),
     ("an unchanged architecture computes", "noop-samefn"),
     ("the clone reproduces", "clone"),
+    ("normalisation weights whose shape did not change", "norm-lost"),
     ("every surviving normalisation weight", "norm-reinit"),
 ]
 
@@ -880,7 +882,10 @@ def walk_descs(quick: bool) -> List[dict]:
     ds = [dict(what=w) for w in ("mlp", "cnn", "cnn3d", "lstm", "simba", "resnet")]
     ds += [dict(what="multi", obs="dict", kw=dict(vector_space_mlp=True), tag="vsm"), dict(what="multi", obs="tuple"),
            dict(what="multi", obs="dictseq", kw=dict(recurrent=True), tag="lstm"),
-           dict(what="multi", obs="dict", kw=dict(vector_space_mlp=True), names=["vision", "vmlp"], tag="named")]
+           dict(what="multi", obs="dict", kw=dict(vector_space_mlp=True), names=["vision", "vmlp"], tag="named"),
+           # non-default constructor switches that every rebuild has to carry along
+           dict(what="mlp", kw=dict(activation="GELU", new_gelu=True), tag="newgelu"),
+           dict(what="mlp", kw=dict(activation="Tanh", output_activation="Sigmoid", layer_norm=False, output_vanish=False, init_layers=False), tag="switches")]
     for cls in ("QNetwork", "RainbowQNetwork", "ContinuousQNetwork", "ValueNetwork", "DeterministicActor", "StochasticActor"):
         for obs in ("vector", "image", "dict", "tuple", "sequence"):
             if obs == "sequence" and cls in ("RainbowQNetwork", "ContinuousQNetwork"):
@@ -1099,7 +1104,9 @@ def signature(t, v) -> str:
     m = ev["m"]
     target = m.split(".")[0] if "." in m else ("latent" if "latent" in m else "self")
     if tag == "noop-samefn":
-        return f"{base}:{target}"
+        # BatchNorm running statistics are reset when a network is rebuilt (known finding F-C04-2): marked so that other causes
+        # of "an unchanged architecture computes another function" are not mistaken for it
+        return f"{base}:{target}" + (":batchnorm" if ev.get("bn") else "")
     # in place on an object whose sub-modules were re-created by an earlier latent mutation (no clone since)
     qual = ":inplace-after-latent" if ev.get("after_latent") else ""
     exc = ""
